@@ -21,6 +21,7 @@ import (
 	"database/sql"
 	"errors"
 
+	"github.com/btcsuite/btcd/btcec/v2"
 	"github.com/lightningnetwork/lnd/lntypes"
 	"github.com/lightningnetwork/lnd/lnwire"
 	"github.com/lightningnetwork/lnd/sqldb"
@@ -442,7 +443,12 @@ func VerifC16SQLStep() {
 	_, preSettled, _, _ := c16Flags(p)
 	preN := len(p.atts)
 
-	var err error
+	// the same pre-state as the kv store would load it, for the backend
+	// cross-check at the end of the switch
+	mk := c16Build(p)
+	vAssert(mk.setState() == nil, "fetch: setState accepts a payment with sent <= value")
+
+	var err, kvErr error
 	var n c16A
 	evID := uint64(0)
 	switch ev {
@@ -452,30 +458,47 @@ func VerifC16SQLStep() {
 		att := c16Attempt(n).HTLCAttemptInfo
 		h := c16Hash
 		att.Hash = &h
+		// a cached session key, so that SessionKey() does not derive the
+		// public key (elliptic-curve code is outside the engine)
+		att.cachedSessionKey = &btcec.PrivateKey{}
 		_, err = s.RegisterAttempt(ctx, c16Hash, &att)
+		kvErr = c16DoRegister(mk, &att)
 	case c16EvSettle:
 		evID = vU64("evID")
 		vAssume(evID < 1<<62)
 		_, err = s.SettleAttempt(ctx, c16Hash, evID, &HTLCSettleInfo{})
+		kvErr = c16DoResolve(mk, evID, true)
 	case c16EvFailAttempt:
 		evID = vU64("evID")
 		vAssume(evID < 1<<62)
 		_, err = s.FailAttempt(ctx, c16Hash, evID, &HTLCFailInfo{Reason: HTLCFailInternal})
+		kvErr = c16DoResolve(mk, evID, false)
 	case c16EvFail:
-		_, err = s.Fail(ctx, c16Hash, FailureReason(vU8("evReason")&7))
+		r := FailureReason(vU8("evReason") & 7)
+		_, err = s.Fail(ctx, c16Hash, r)
+		kvErr = c16DoFail(mk, r)
 	case c16EvInit:
 		nv := vU64("evValue")
 		vAssume(nv <= c16MaxMsat)
 		err = s.InitPayment(ctx, c16Hash, &PaymentCreationInfo{
 			PaymentIdentifier: c16Hash, Value: lnwire.MilliSatoshi(nv),
 		})
+		kvErr = c16DoInit(mk, lnwire.MilliSatoshi(nv))
 	case c16EvDeleteFailed:
 		err = s.DeleteFailedAttempts(ctx, c16Hash)
+		kvErr = c16DoDeleteFailed(mk)
 	case c16EvDelete:
 		err = s.DeletePayment(ctx, c16Hash, false)
+		kvErr = c16DoDelete(mk)
 	}
 	admitted := err == nil
 	vObserve("admitted", admitted)
+	// backend cross-check, stated after the property obligations of each
+	// branch: the SQL store (real code) and the in-memory effect of the kv
+	// store operation (harness mirror) agree.
+	crossAdmit := func() {
+		vAssert((kvErr == nil) == admitted, "SQL store and kv mirror agree on whether the operation is admitted")
+	}
 
 	exists, post, postSettled, postSent, postValue, postN := c16SQLRaw(f)
 	vObserve("post", int(post))
@@ -496,6 +519,7 @@ func VerifC16SQLStep() {
 			vAssert(pre == StatusInFlight, "deleting a payment that is not InFlight is allowed")
 		}
 		vReach("refused")
+		crossAdmit()
 		return
 	}
 
@@ -545,6 +569,7 @@ func VerifC16SQLStep() {
 		vAssert(errors.Is(ferr, ErrPaymentNotInitiated), "SQL: fetching a deleted payment reports ErrPaymentNotInitiated")
 		_, serr := s.SettleAttempt(ctx, c16Hash, 1, &HTLCSettleInfo{})
 		vAssert(errors.Is(serr, ErrPaymentNotInitiated), "SQL: settling on a deleted payment reports ErrPaymentNotInitiated")
+		crossAdmit()
 		return
 	}
 
@@ -567,4 +592,8 @@ func VerifC16SQLStep() {
 		vAssert(uint64(m.State.RemainingAmt) == postValue-postSent, "SQL: RemainingAmt is the truth after the step")
 		vAssert(len(m.HTLCs) == postN, "SQL: every stored attempt is reported")
 	}
+
+	crossAdmit()
+	kvPost, _ := c16RawStatus(mk)
+	vAssert(kvPost == post && c16RawSent(mk) == postSent && len(mk.HTLCs) == postN, "SQL store and kv mirror agree on the resulting payment (status, amounts, attempts)")
 }
